@@ -504,12 +504,17 @@ func (s *scanner) ReadName() (Name, error) {
 		if len(buf) == 0 {
 			break
 		}
+		b := buf[0]
+		if b != '#' && class[b] != regular {
+			break
+		}
+		// the limit applies to the bytes of the name, not to the byte
+		// which terminates it
 		if len(res) >= maxNameBytes {
 			return "", &MalformedFileError{
 				Err: errors.New("name too long"),
 			}
 		}
-		b := buf[0]
 		if b == '#' {
 			if b, ok := s.tryHex(); ok {
 				res = append(res, b)
@@ -518,8 +523,6 @@ func (s *scanner) ReadName() (Name, error) {
 			// PDF 7.3.5: when "#" is not followed by two hex digits,
 			// treat the "#" as a literal character.
 			res = append(res, '#')
-		} else if class[b] != regular {
-			break
 		} else {
 			res = append(res, b)
 		}
